@@ -25,7 +25,7 @@ def uni(draw, lo, hi):
 
 
 CLASSES = ['generic', 'generic', 'shared_tight', 'heavy_ties', 'zero_capacity',
-           'lower_quotas', 'more_lecturers', 'two_agent', 'two_agent']
+           'lower_quotas', 'more_lecturers', 'two_agent', 'two_agent', 'tied_lower_quotas']
 
 
 def _groups(draw, items, tie_pct):
@@ -63,9 +63,10 @@ def instances(draw, sizes, na=None, two_sided=None, cls=None, min_len=1):
         n3 = n2
     if two_sided is None:
         two_sided = pct(draw) < 70
-    t1 = draw(st.sampled_from([0, 0, 30, 60])) if cls != 'heavy_ties' else \
+    heavy = cls in ('heavy_ties', 'tied_lower_quotas')
+    t1 = draw(st.sampled_from([0, 0, 30, 60])) if not heavy else \
         draw(st.sampled_from([60, 85, 100]))
-    t2 = draw(st.sampled_from([0, 0, 30, 60])) if cls != 'heavy_ties' else \
+    t2 = draw(st.sampled_from([0, 0, 30, 60])) if not heavy else \
         draw(st.sampled_from([60, 85, 100]))
     prefs = []
     for _ in range(n1):
@@ -73,7 +74,7 @@ def instances(draw, sizes, na=None, two_sided=None, cls=None, min_len=1):
         k = uni(draw, min(min_len, n2, sizes['lmax']), min(n2, sizes['lmax']))
         prefs.append(_groups(draw, list(perm[:k]), t1))
     zero = cls == 'zero_capacity'
-    lowq = cls == 'lower_quotas'
+    lowq = cls in ('lower_quotas', 'tied_lower_quotas')
     uq_choices = [0, 0, 1, 1, 2] if zero else [0, 1, 1, 1, 2, 2, 3]
     puq = [draw(st.sampled_from(uq_choices)) for _ in range(n2)]
     plq = []
@@ -262,6 +263,7 @@ def instance_labels(inst, opts=None):
 
 # ------------------------------------------------------------------ sparse embedding
 ID_POOL = [1, 2, 3, 9, 10, 11, 12, 13, 19, 20, 21, 22]
+BIG_ID_POOL = [1, 2, 255, 256, 257, 258, 259, 300]
 
 
 def embed(inst, smap, pmap, lmap=None):
@@ -340,9 +342,13 @@ def embed(inst, smap, pmap, lmap=None):
 @st.composite
 def id_maps(draw, inst):
     """Drawn sparse id maps (students, projects, lecturers) for embed()."""
-    smap = list(draw(st.permutations(ID_POOL)))[:inst['n1']]
-    pmap = list(draw(st.permutations(ID_POOL)))[:inst['n2']]
-    lmap = list(draw(st.permutations(ID_POOL)))[:inst['n3']] if inst['na'] == 3 else None
+    pools = [ID_POOL, ID_POOL, ID_POOL]
+    if pct(draw) < 12:
+        # one side gets ids beyond CPython's small-int cache (identity vs equality on ints)
+        pools[draw(st.sampled_from([0, 1, 2]))] = BIG_ID_POOL
+    smap = list(draw(st.permutations(pools[0])))[:inst['n1']]
+    pmap = list(draw(st.permutations(pools[1])))[:inst['n2']]
+    lmap = list(draw(st.permutations(pools[2])))[:inst['n3']] if inst['na'] == 3 else None
     return {'smap': smap, 'pmap': pmap, 'lmap': lmap}
 
 
